@@ -7,7 +7,8 @@ PROPS = ["MagpyVerif.Props.C05"]
 NOT_SHOWN = {
  "03": ["full getBH pipeline covariance with Sensor observers (proved for position observers; sensors are C04)"],
  "04": ["pixel_agg reductions other than sum/min/max (mean, median, std, ...) are not modelled; the theorem holds for any reduction function of the pixel list, the stream exercises sum/min/max"],
- "05": ["linearity of each class's kernel in its excitation (kernel-level, see C01/C02); proved here: the marshalling preserves it for any F"],
+ "05": ["linearity of the Cylinder, CylinderSegment and TriangularMesh kernels in their excitation (not ported to the real carrier; oracle only); proved: the marshalling "
+        "preserves linearity for any F, and the Dipole, Sphere (C12), segment, Circle, Cuboid, Triangle, Tetrahedron kernels are linear"],
  "06": ["batch-level control flow inside kernels (rowwise_c: trimesh grouping, segment early return, cel n<10) — kernel model pending",
         "np.squeeze / np.expand_dims / reshape semantics are assumed as modelled (shape list + unchanged row-major data), exercised by the stream"],
 }["05"]
@@ -15,6 +16,13 @@ NOT_SHOWN = {
 
 def run(ctx, model_ok):
     _level2.run(ctx, oracle.c05_sweep, {"03": 60, "04": 60, "05": 40, "06": 50}["05"], {"03": 2000, "04": 2000, "05": 1200, "06": 1500}["05"], NOT_SHOWN)
+    if ctx.driver_ok:
+        # the kernel-linearity theorems are about the ports in Model/Kernels.lean: tie them to the real functions on this run too
+        from corr import kern_family
+        st = kern_family.run_stream(ctx, ctx.scale(360, 18000))
+        st.pop("samples")
+        ctx.cov["correspondence_kern"] = st
+        ctx.cov["traces_validated_against_impl"] = ctx.cov.get("traces_validated_against_impl", 0) + st["rows"]
 
 
 replay = _level2.replay
